@@ -2,6 +2,7 @@ package drivers
 
 import (
 	"bytes"
+	"crypto"
 	"crypto/x509/pkix"
 	"encoding/asn1"
 	"fmt"
@@ -370,6 +371,13 @@ func (c c06Case) build() (doc []byte, der []byte, wellFormed bool, mustReject bo
 // decoder. It returns "" (agrees), or a mismatch class.
 func c06Judge(dir string, c c06Case) (class string, detail string, premise bool) {
 	doc, der, wellFormed, mustReject := c.build()
+	return c06Compare(dir, doc, der, wellFormed, mustReject, c06Algs[c[dAlg]].Hash, c.String())
+}
+
+// c06Compare reads doc with the streaming reader and compares everything it reports with the whole-document reference
+// decoding of der (doc is der, or der in PEM armour).
+func c06Compare(dir string, doc, der []byte, wellFormed, mustReject bool, hash crypto.Hash, what string) (class string, detail string, premise bool) {
+	c := what
 	rec := &recProc{}
 	res, err, pan := readCRLBytes(dir, doc, rec)
 	if pan != "" {
@@ -432,8 +440,7 @@ func c06Judge(dir string, c c06Case) (class string, detail string, premise bool)
 		return "extmeta-mismatch", fmt.Sprintf("crl number %v vs %v", rec.Ext.CRLNumber, ref.Number), true
 	}
 	// digest
-	alg := c06Algs[c[dAlg]]
-	h := alg.Hash.New()
+	h := hash.New()
 	h.Write(ref.TBSRaw)
 	if !bytes.Equal(res.CalculatedSignature, h.Sum(nil)) {
 		return "digest-mismatch", "digest differs from Hash(tbsCertList)", true
@@ -497,6 +504,64 @@ func c06Minimise(dir string, c c06Case, class string) string {
 		return strings.TrimSpace(s.String() + " pad=some-alignment") // the offset itself is in the replay file, not in the signature
 	}
 	return cur.String()
+}
+
+// c06SizeBoundary: single elements around the largest element the reader takes in one piece (81920 value octets): one
+// revoked entry, and the crlExtensions block, whose size runs through every value from 121 octets below that mark up
+// to it - so that every way the element's header and value can fall across the reader's internal portions occurs.
+func c06SizeBoundary(chk *fw.Check, dir string, tier string) (n int) {
+	p := world.Std()
+	encs := []string{"DER"}
+	if tier == "thorough" {
+		encs = []string{"DER", "PEM-LF", "PEM-CRLF"}
+	}
+	for _, where := range []string{"entry", "crlExtensions"} {
+		for size := 81920 - 170; size <= 81920-30; size++ {
+			s := world.SimpleCRL(p.CA, 7, 501)
+			if where == "entry" {
+				s.Entries[0].Exts = []pkix.Extension{world.UnknownExt(false, size)}
+			} else {
+				s.Exts = append(s.Exts, world.UnknownExt(false, size))
+			}
+			der := s.DER()
+			ref, err := world.DecodeCRL(der)
+			if err != nil {
+				panic(err)
+			}
+			// the element's own value length, as the reference decoder sees it
+			elem := 0
+			if where == "entry" {
+				var raw asn1.RawValue
+				rc := ref.Raw.TBSCertList.RevokedCertificates[0]
+				b, _ := asn1.Marshal(rc)
+				asn1.Unmarshal(b, &raw)
+				elem = len(raw.Bytes)
+			} else {
+				b, _ := asn1.Marshal(ref.Raw.TBSCertList.Extensions)
+				var raw asn1.RawValue
+				asn1.Unmarshal(b, &raw)
+				elem = len(raw.Bytes)
+			}
+			if elem > 81920 {
+				continue // larger than what the reader accepts in one element: outside what is compared here
+			}
+			for _, enc := range encs {
+				doc := der
+				switch enc {
+				case "PEM-LF":
+					doc = world.PEM(der, false)
+				case "PEM-CRLF":
+					doc = world.PEM(der, true)
+				}
+				n++
+				what := fmt.Sprintf("%s of %d value octets, %s", where, elem, enc)
+				if class, detail, _ := c06Compare(dir, doc, der, true, false, world.DefaultAlg(p.CA.Kind).Hash, what); class != "" {
+					chk.Violation("C06|"+class+"|element-size-boundary "+where, fmt.Sprintf("%s: %s", what, detail), map[string]interface{}{"where": where, "value_octets": elem, "encoding": enc})
+				}
+			}
+		}
+	}
+	return
 }
 
 // RunC06 is the entry point of the C06 check.
@@ -612,6 +677,8 @@ func RunC06(tier string, args []string) int {
 			}
 		}
 	}
+	sizeCases := c06SizeBoundary(chk, dir, tier)
+	evals += sizeCases
 	os.RemoveAll(dir)
 	shortPlans, shortReads := c06ShortReads(chk, tier)
 	keys := outcomes.Keys()
@@ -622,18 +689,19 @@ func RunC06(tier string, args []string) int {
 		samples = []string{c06Case{}.String(), c.String()}
 	}
 	cov := fw.Coverage{
-		"evaluations":            evals,
-		"distinct_nontrivial":    nontrivial.N(),
-		"rule":                   "shape grammar: full product version(3) x entries(6) x nextUpdate(2) x crlExtensions(6) x encoding(3) x revocation-date form(2); serial forms, entry extensions, issuer shapes and signature algorithms each crossed with version(2) x crlExtensions(2) x encoding(3) x entries{3,30}; alignment sweep pad=1..4095 (DER) / 1..4095|12287 (PEM LF, CRLF) for 3- and 30-entry documents. A case is non-trivial when it is inside the premise (well-formed or must-be-rejected shape); distinct by parameter tuple.",
-		"samples":                samples,
-		"core_cases":             coreN,
-		"single_dimension_cases": single,
-		"alignment_cases":        sweep,
-		"short_read_plans":       shortPlans,
-		"short_read_positions":   shortReads,
-		"premise_false":          premiseFalse,
-		"outcome_classes":        outcomes.Counts(),
-		"exhaustive":             true,
+		"evaluations":                 evals,
+		"distinct_nontrivial":         nontrivial.N(),
+		"rule":                        "shape grammar: full product version(3) x entries(6) x nextUpdate(2) x crlExtensions(6) x encoding(3) x revocation-date form(2); serial forms, entry extensions, issuer shapes and signature algorithms each crossed with version(2) x crlExtensions(2) x encoding(3) x entries{3,30}; alignment sweep pad=1..4095 (DER) / 1..4095|12287 (PEM LF, CRLF) for 3- and 30-entry documents. A case is non-trivial when it is inside the premise (well-formed or must-be-rejected shape); distinct by parameter tuple.",
+		"samples":                     samples,
+		"core_cases":                  coreN,
+		"single_dimension_cases":      single,
+		"alignment_cases":             sweep,
+		"element_size_boundary_cases": sizeCases,
+		"short_read_plans":            shortPlans,
+		"short_read_positions":        shortReads,
+		"premise_false":               premiseFalse,
+		"outcome_classes":             outcomes.Counts(),
+		"exhaustive":                  true,
 	}
 	return chk.Finish(cov)
 }
